@@ -115,7 +115,8 @@ def cls_spec(c):
 def meta_info(specs):
     """For classes created through urwid.MetaSignals (directly, or by subclassing such a class): the names the
     metaclass registers at class creation = the class body's `signals` followed by the `signals` attribute of the
-    base class, without duplicates (this is what the metaclass documents: 'including signals in superclasses').
+    base class (whatever its metaclass), without duplicates (the metaclass documents: 'register the list of
+    signals in the class variable signals, including signals in superclasses').
     Returns {class index: names} in class order."""
     attr, is_meta, out = {}, {}, {}
     for i, c in enumerate(specs):
@@ -127,7 +128,9 @@ def meta_info(specs):
             out[i] = list(dict.fromkeys(own + inherited))
             attr[i] = own + inherited if sig is not None else inherited
         else:
-            attr[i] = inherited
+            # a plain class: nothing is registered; a `signals` list in its body is just a class attribute
+            # (which the metaclass of a subclass will read)
+            attr[i] = list(sig) if sig is not None else inherited
     return out
 
 
@@ -307,7 +310,15 @@ class C14(core.Check):
                   "and changes nothing; the death of a weak argument removes exactly the handlers that reference it (any "
                   "sender, also one that is false in a boolean context).  Nested emits use fuel; theorems are about emits that return (out-of-fuel = RecursionError is an "
                   "exception and excluded explicitly).  The model is hand-written and tied to signals.py by an exact "
-                  "correspondence of event traces and final handler tables.  ORACLE-ONLY (harness, not a theorem): 'the signal "
+                  "correspondence of event traces and final handler tables.  Registration is per exact class in model and theorems (unregistered_name_rejected looks only at the "
+                  "sender's own class); sender classes that are subclasses of registered classes, declared plainly or through "
+                  "the MetaSignals metaclass (whose registration = own signals + those of the base classes is computed by the "
+                  "harness), are part of the correspondence stream.  ORACLE-ONLY widget-level stream (no model, no theorem): "
+                  "Button / CheckBox / RadioButton constructor callbacks with user_data over a value set including falsy "
+                  "non-None values (0, False, '', 0.0, ()), connect/disconnect by the same arguments, Edit/IntEdit change and "
+                  "postchange, a Button subclass with extra signals, and ListBox body replacement followed by emits and "
+                  "modifications of old and new walkers (observed through a counting _invalidate) are judged by a reference "
+                  "handler list only.  ORACLE-ONLY (harness, not a theorem): 'the signal "
                   "machinery never keeps a sender or a weak argument alive' is a statement about the CPython heap; it is checked "
                   "by dropping the references, gc.collect() and weakref liveness, at every drop point of every history and at "
                   "the end of each case.")
@@ -319,6 +330,10 @@ class C14(core.Check):
             "cycle), callback scripts, top-level operation list) over register/connect/disconnect/disconnect_by_key/emit/"
             "drop-object/gc.collect; exhaustive scenarios: n<=3 (quick) or n<=4 (thorough) handlers x one or two scripted "
             "behaviours x positions x targets x weak-argument patterns x return patterns, plus random histories; "
+            "class hierarchies A<-B<-C (plain / MetaSignals) x register_signal patterns x every (sender class, name); "
+            "widget-level stream (oracle only): every constructor-callback widget x 12 user_data values x activation kinds, "
+            "random connect/disconnect/activate/drop-weak-argument sequences on buttons, check boxes, radio groups, edits; "
+            "random ListBox body swaps over 2-3 walkers and 1-2 list boxes with emits/appends/pops on every walker; "
             "non-trivial = at least one handler was called; distinct by hash of (case, outcome)")
     trusted_base = [
         "Coq 8.16.1 kernel (coqc; vm_compute used only for closed examples)",
@@ -328,6 +343,8 @@ class C14(core.Check):
         "the harness instrumentation (callback objects, death-logging weakrefs, depth bound standing for the recursion limit)",
         "CPython reference counting and gc.collect() as the meaning of 'garbage-collected' (heap clause is oracle-only)",
         "Python oracle in harness/props/c14.py",
+        "widget-level stream: the documented widget contracts (callback(widget [, state] [, user_data]); Button/CheckBox "
+        "docstrings) as the reference; no model behind it",
     ]
     assumptions = [
         "callback scripts do not catch exceptions raised by the operations they perform",
@@ -378,20 +395,25 @@ class C14(core.Check):
             if cb is not None and k in ("button", "button_sub", "checkbox", "radio"):
                 f = CBW(cb, serial)
                 serial += 1
-            if k == "button":
-                w = urwid.Button("b", f, VALS[d])
-            elif k == "button_sub":
-                w = ButtonSub("b", f, VALS[d])
-            elif k == "checkbox":
-                w = urwid.CheckBox("c", bool(state), False, f, VALS[d])
-            elif k == "radio":
-                w = urwid.RadioButton(group, "r", bool(state), f, VALS[d])
-            elif k == "edit":
-                w = urwid.Edit("", "ab")
-            elif k == "intedit":
-                w = urwid.IntEdit("", 12)
-            else:
-                raise core.MachineryError("unknown widget kind " + str(k))
+            try:
+                if k == "button":
+                    w = urwid.Button("b", f, VALS[d])
+                elif k == "button_sub":
+                    w = ButtonSub("b", f, VALS[d])
+                elif k == "checkbox":
+                    w = urwid.CheckBox("c", bool(state), False, f, VALS[d])
+                elif k == "radio":
+                    w = urwid.RadioButton(group, "r", bool(state), f, VALS[d])
+                elif k == "edit":
+                    w = urwid.Edit("", "ab")
+                elif k == "intedit":
+                    w = urwid.IntEdit("", 12)
+                else:
+                    raise core.MachineryError("unknown widget kind " + str(k))
+            except core.MachineryError:
+                raise
+            except Exception as e:
+                return {"outs": [], "ctor_exc": [k, type(e).__name__]}
             widgets.append(w)
 
         def states():
@@ -470,14 +492,17 @@ class C14(core.Check):
                 counts[self.idx] += 1
                 super()._invalidate()
 
-        walkers = [(urwid.SimpleFocusListWalker if k == "sflw" else urwid.SimpleListWalker)([urwid.Text("a")])
-                   for k in case["walkers"]]
-        lbs = []
-        for i, w in enumerate(case["lbs"]):
-            counts.append(0)
-            lb = CountingListBox(walkers[w])
-            lb.idx = i
-            lbs.append(lb)
+        try:
+            walkers = [(urwid.SimpleFocusListWalker if k == "sflw" else urwid.SimpleListWalker)([urwid.Text("a")])
+                       for k in case["walkers"]]
+            lbs = []
+            for i, w in enumerate(case["lbs"]):
+                counts.append(0)
+                lb = CountingListBox(walkers[w])
+                lb.idx = i
+                lbs.append(lb)
+        except Exception as e:
+            return {"outs": [], "ctor_exc": ["listbox", type(e).__name__]}
         outs = []
         for st in case["steps"]:
             for i in range(len(counts)):
@@ -616,6 +641,8 @@ class C14(core.Check):
         def note(k, n=1):
             obs[k] = obs.get(k, 0) + n
 
+        if res.get("ctor_exc"):
+            return [f"constructing a {res['ctor_exc'][0]} (with its documented callback arguments) raised {res['ctor_exc'][1]}"], obs
         hs = []                     # by serial
         kinds = [w[0] for w in case["widgets"]]
 
@@ -708,6 +735,8 @@ class C14(core.Check):
 
     def analyse_listbox(self, case, res):
         msgs, obs = [], {}
+        if res.get("ctor_exc"):
+            return [f"constructing a list box over a list walker raised {res['ctor_exc'][1]}"], obs
         body = list(case["lbs"])
         for st, (counts, exc) in zip(case["steps"], res["outs"]):
             if st[0] == "body":
@@ -932,7 +961,7 @@ class C14(core.Check):
 
     def nontrivial(self, case, res):
         if case.get("kind") == "widget":
-            return any(isinstance(o, dict) and o["calls"] for o in res["outs"])
+            return any(isinstance(o, dict) and o["calls"] for o in res.get("outs", []))
         if case.get("kind") == "listbox":
             return any(any(o[0]) for o in res["outs"])
         return any(e[0] == 7 for e in res.get("trace", []))
